@@ -3,6 +3,7 @@ import ClairModel.Model.FeedSeverity
 import ClairModel.Model.FeedCommon
 import ClairModel.Model.FeedFlat
 import ClairModel.Model.FeedOval
+import ClairModel.Model.FeedOsv
 import ClairModel.Gen.Severity
 import ClairModel.Gen.Feeds
 
@@ -234,6 +235,57 @@ def pOval : P String := do
     pure (showOpt (dpkgDefsToVulns root (protoUbuntu (normalize codeUbuntuMode codeUbuntu codeUbuntuDefault) updater dist) defs))
   | _ => failure
 
+def pSemver : P SemverParse := do
+  let t ← tok
+  if t == "x" then pure none else
+  match (t.splitOn ".").map String.toNat? with
+  | [some a, some b, some c, some p] => pure (some (a, b, c, p != 0))
+  | _ => failure
+
+def pBool : P Bool := do
+  let n ← nat
+  pure (n != 0)
+
+def pOsvAdvisory : P OsvAdvisory := do
+  let id ← str
+  let summary ← str
+  let withdrawnPast ← pBool
+  let severities ← many (do
+    let type ← str
+    let score ← str
+    let rating ← nat
+    pure ({ type, score, rating } : OsvSeverity))
+  let dbSeverity ← pOpt str
+  let refs ← many str
+  let affected ← many (do
+    let ecosystem ← str
+    let name ← str
+    let purl ← str
+    let hasVersions ← pBool
+    let ranges ← many (do
+      let type ← str
+      let events ← many (do
+        let introduced ← str
+        let fixed ← str
+        let lastAffected ← str
+        let limit ← str
+        let introducedV ← pSemver
+        let fixedV ← pSemver
+        let lastAffectedV ← pSemver
+        pure ({ introduced, fixed, lastAffected, limit, introducedV, fixedV, lastAffectedV } : OsvEvent))
+      pure ({ type, events } : OsvRange))
+    pure ({ ecosystem, name, purl, hasVersions, ranges } : OsvAffected))
+  pure { id, summary, withdrawnPast, severities, dbSeverity, refs, affected }
+
+def osvEco : OsvEcosystems :=
+  { go := osvEcosystemGo, maven := osvEcosystemMaven, npm := osvEcosystemNPM, pypi := osvEcosystemPyPI, rubygems := osvEcosystemRubyGems }
+
+def pOsv : P String := do
+  let updater ← str
+  let repoName ← str
+  let advs ← many pOsvAdvisory
+  pure (showOpt (osvParse osvEco (normalize codeOsvDbMode codeOsvDb codeOsvDbDefault) osvRepoURIs updater repoName advs))
+
 def dispatch : P String := do
   let op ← tok
   match op with
@@ -243,6 +295,7 @@ def dispatch : P String := do
   | "debian" => pDebian
   | "aws" => pAws
   | "oval" => pOval
+  | "osv" => pOsv
   | "reset" => pure "ok"
   | _ => failure
 
